@@ -7,6 +7,7 @@ package nbio
 // (package verifsys) and read-only views of the write-path state, for the connio harness (C01, C17).
 
 import (
+	"github.com/lesismal/nbio/mempool"
 	"github.com/lesismal/nbio/verifsys"
 )
 
@@ -40,6 +41,10 @@ func VerifNewSimEngine(conf Config) *VerifSimEngine {
 	}
 	return v
 }
+
+// SetBodyAllocator changes Engine.BodyAllocator (read by newToWriteBuf / releaseToWrite on every call through c.p.g);
+// only between connections: buffers must be freed by the allocator they came from.
+func (v *VerifSimEngine) SetBodyAllocator(a mempool.Allocator) { v.G.BodyAllocator = a }
 
 // SetMaxWriteBufferSize changes Engine.MaxWriteBufferSize (read by Conn.overflow on every write).
 func (v *VerifSimEngine) SetMaxWriteBufferSize(n int) { v.G.MaxWriteBufferSize = n }
